@@ -47,6 +47,31 @@ where
             self.clone_index_stack(index_list_start, offset)?;
         }
 
+        // Cells of the retained prefix are neither moved nor rewritten. The input-value cells among them can
+        // have been updated in place (`get_current_value_mut`: update value, reapply, the final end of
+        // expression) to refer to data above the prefix, which has just been cloned: re-point those links.
+        let mut next_value = original_value;
+        let mut remaining = current_data_end - self.data_block().start;
+        while let Some(index) = next_value {
+            let (previous, value) = match self.get_from_data_block_ensure_index(index)? {
+                BasicData::Value(previous, value) => (Some(*previous), *value),
+                BasicData::ValueRoot(value) => (None, *value),
+                _ => break,
+            };
+            if index < self.data_retention_count() && value >= self.data_retention_count() {
+                let mapped_value = self.lookup_in_data_slice(lookup_start, index_list_end, value)?;
+                match self.get_from_data_block_ensure_index_mut(index)? {
+                    BasicData::Value(_, value) | BasicData::ValueRoot(value) => *value = mapped_value,
+                    _ => {}
+                }
+            }
+            next_value = previous;
+            if remaining == 0 {
+                break;
+            }
+            remaining -= 1;
+        }
+
         for i in symbol_table_range {
             let (_symbol, data_index) = self.get_from_symbol_table_block_ensure_index(i)?;
             let mapped_index = self.lookup_in_data_slice(lookup_start, index_list_end, data_index)?;
